@@ -176,6 +176,8 @@ where
     Sd: Data<Elem = f64> + ndarray::RawDataClone,
     Sx: Data<Elem = f64> + ndarray::RawDataClone,
     D: Dimension + RemoveAxis,
+    // a tree may demand `Self: Sync` of the batch entry points (see slots::MaybeSync)
+    Interp1D<Sd, Sx, D, Rec1<D>>: crate::slots::MaybeSync,
 {
     NOTES.with(|n| n.borrow_mut().clear());
     let trailing: Vec<usize> = data.shape()[1..].to_vec();
@@ -224,6 +226,7 @@ where
     Sy: Data<Elem = f64> + ndarray::RawDataClone,
     D: Dimension + RemoveAxis,
     D::Smaller: RemoveAxis,
+    Interp2D<Sd, Sx, Sy, D, Rec2<D>>: crate::slots::MaybeSync,
 {
     NOTES.with(|n| n.borrow_mut().clear());
     let trailing: Vec<usize> = data.shape()[2..].to_vec();
